@@ -308,6 +308,33 @@ def listing_rule(ctx, rid):
     return rr
 
 
+def glob_escape_rule(ctx, rid):
+    """Progress is counted with glob patterns built from the crop's folder: a folder name is data, not a pattern -- `[`, `]`,
+    `*`, `?` in it must be escaped, or the listing finds nothing and the crop is never reported sown / grown / ready."""
+    rr = ctx.rule(rid, "glob patterns over the crop's files escape the crop's own location (a folder named `run[1]` is not a character class)", floor=3)
+    m = ctx.prog.modules["xyzpy.gen.cropping"]
+    for fi in m.all_funcs:
+        for n, c, nm in all_calls(ctx, fi):
+            if nm not in ("glob.glob", "glob.iglob") or not c.args:
+                continue
+            locs = [x for x in ast.walk(c.args[0]) if isinstance(x, ast.Attribute) and x.attr == "location"]
+            # follow a local name holding the pattern
+            if not locs and isinstance(c.args[0], ast.Name):
+                d = single_def(fi, c.args[0].id)
+                if d is not None:
+                    locs = [x for x in ast.walk(d[1]) if isinstance(x, ast.Attribute) and x.attr == "location"]
+            if not locs:
+                continue
+            ctx.touch(fi)
+            raw = [x for x in locs if not (isinstance(getattr(x, "_parent", None), ast.Call) and norm(getattr(x, "_parent").func) == "glob.escape")]
+            if raw:
+                rr.bad(ctx.finding(rid, fi, c, "`%s` puts the crop's folder into a glob pattern unescaped: for a crop whose path contains `[`, `]`, `*` or `?` (e.g. parent_dir='run[1]') the listing matches nothing, so sown batches and finished results are "
+                                   "counted as 0 and the crop is never ready to reap although every result exists" % norm(c)[:70], construct="glob-unescaped " + fi.name), "%s escapes" % fi.name)
+            else:
+                rr.ok("%s: the location is escaped in `%s`" % (fi.qualname, norm(c)[:60]))
+    return rr
+
+
 def run(ctx):
     grow_write_rule(ctx, "C08.R1")
     writers_rule(ctx, "C08.R2")
@@ -317,6 +344,7 @@ def run(ctx):
     batching.id_universe_rule(ctx, "C08.R6")
     from . import c07
     r7 = c07.order_rule(ctx, "C08.R7")
+    glob_escape_rule(ctx, "C08.R8")
     prog = ctx.prog
     crop = prog.need_cls(CROP + ".Crop")
     sl = [crop.methods[n] for n in ("calc_progress", "is_ready_to_reap", "missing_results", "num_sown_batches", "num_results", "grow", "grow_missing", "check_bad", "delete_all", "is_prepared", "_sync_info_from_disk", "load_info", "__str__") if n in crop.methods]
